@@ -272,7 +272,7 @@ theorem step_nofunc (S : Sem V) (st : St V) (t n : Tok) (hopf : st.opf = []) (ht
   | panic => rfl
   | ok r =>
     obtain ⟨opd, opt⟩ := r
-    simp [h1, h2]
+    simp [stepTail, h1, h2, hopf]
 
 theorem run_nofunc (S : Sem V) :
     ∀ (toks : List Tok) (st : St V) (d : Nat), st.opf = [] → (∀ t ∈ toks, t.ty ≠ .function) →
